@@ -247,7 +247,7 @@ def run(pid, tier, seed, replay, mode):
                                    error=f"{type(e).__name__}: {e}"), True)
             continue
         # batch composition must not matter: a sample of rows evaluated one at a time gives the batch's values
-        for j in rs.choice(len(X), size=min(len(X), 6), replace=False):
+        for j in rs.choice(len(X), size=min(len(X), 6 if mode == "full" else 20), replace=False):
             try:
                 l1, ll1, e1 = impl_eval(root, X[j:j + 1])
             except Exception as e:
